@@ -204,4 +204,18 @@ theorem neg_cycle_unbounded {E : List (Edge Int)} {s x : Nat} {a c : Int} (hp : 
   have : (k : Int) * c ≤ (k : Int) * (-1) := Int.mul_le_mul_of_nonneg_left (by omega) hk0
   omega
 
+/-- soundness of `lowerCert` (restated as a property theorem in `Theorems.lean`) -/
+theorem lowerCert_sound' {W : Type} [Add W] [Zero W] [LE W] [DecidableLE W] [DecidableEq W] [OrdW W]
+    {E : List (Edge W)} {s : Nat} {T : List Nat} {pot : Tab W} {c : W}
+    (h : lowerCert E s T pot c = true) : ∀ t ∈ T, ∀ c', Walk E s t c' → c ≤ c' := by
+  unfold lowerCert at h
+  simp only [Bool.and_eq_true, beq_iff_eq, List.all_eq_true] at h
+  obtain ⟨⟨hf, hs⟩, hT⟩ := h
+  intro t ht c' hw
+  obtain ⟨b, hb, hle⟩ := potential_walk hf hw 0 hs
+  rw [OrdW.zero_add] at hle
+  have := hT t ht
+  simp only [hb, decide_eq_true_eq] at this
+  exact OrdW.le_trans this hle
+
 end Solvor.Path
